@@ -120,7 +120,10 @@ func c17Units(tier string) []hx.Unit {
 		must(svc.ScheduleJob(ctx, "c", "J", mc.Base.Add(10*time.Second), job))
 		return []func(){
 			func() { _ = svc.RunJob(ctx, "J") },
-			func() { _ = svc.CancelJob(ctx, "J"); _ = svc.ScheduleJob(ctx, "c", "K", mc.Base.Add(20*time.Second), job) },
+			func() {
+				_ = svc.CancelJob(ctx, "J")
+				_ = svc.ScheduleJob(ctx, "c", "K", mc.Base.Add(20*time.Second), job)
+			},
 			func() { _ = svc.ListJobs(ctx); _ = svc.JobExists(ctx, "J") },
 		}
 	}})
@@ -147,7 +150,12 @@ func c17Units(tier string) []hx.Unit {
 	// Two refreshes never overlap in production (one periodic job, and a job never overlaps itself, C02),
 	// so refresh || refresh is not a scenario.
 	for _, seq := range [][]string{{"A", "B"}, {"A", "err"}, {"A", "malformed"}, {"V1", "V1"}} {
-		for _, acts := range [][]string{{"refresh", "register"}, {"refresh", "lookup1", "auction2"}, {"lookup1", "lookup2"}, {"register", "validatorregs"}, {"refresh", "lookup1", "lookup2"}} {
+		actSets := [][]string{{"refresh", "register"}, {"refresh", "lookup1", "auction2"}, {"lookup1", "lookup2"}, {"register", "validatorregs"}, {"refresh", "lookup1", "lookup2"}}
+		if seq[0] == "V1" {
+			// two requests about one validator (whose own entry in the legacy document is incomplete)
+			actSets = append(actSets, []string{"lookup2", "lookup2"}, []string{"register", "lookup2"}, []string{"lookup2", "auction2"})
+		}
+		for _, acts := range actSets {
 			seq, acts := seq, acts
 			scns = append(scns, c17Scn{name: fmt.Sprintf("blockrelay/fetch[%s]/%s", strings.Join(seq, ","), strings.Join(acts, "+")), settle: int64(time.Second),
 				setup: func(ctx context.Context) []func() {
